@@ -212,6 +212,147 @@ let pieces_string (tid : coq_N) (r : fsample list list res) : string =
     wfiles outs
   with Wclass c -> c
 
+
+(* ---- combine-segs at the decoded level (C lines) ---- *)
+let parse_wire_sample (x : string) : C05Model.sample =
+  match split_on '.' x with
+  | [fl; du; sz; cto] -> { C05Model.s_flags = n_of_bigdec fl; s_dur = n_of_bigdec du; s_size = n_of_bigdec sz; s_cto = z_of_dec cto }
+  | _ -> failwith ("bad wire sample " ^ x)
+
+let parse_trun (x : string) : C05Model.trun =
+  match split_on '=' x with
+  | [hd; ss] ->
+    (match split_on ',' hd with
+     | [fl; doff; fsf] ->
+       { C05Model.tr_version = N0; tr_flags = n_of_bigdec fl; tr_doff = z_of_dec doff; tr_fsf = n_of_bigdec fsf;
+         tr_samples = (if ss = "-" then [] else L.map parse_wire_sample (split_on '/' ss)); tr_won = N0 }
+     | _ -> failwith "bad trun head")
+  | _ -> failwith ("bad trun " ^ x)
+
+let parse_traf (x : string) : C05FragModel.traf =
+  match split_on ':' x with
+  | [hd; truns] ->
+    (match split_on ',' hd with
+     | [fl; tid; bdo; sdi; dd; ds; df; tfdt] ->
+       { C05FragModel.tf_hd = { C05Model.tf_flags = n_of_bigdec fl; tf_track = n_of_bigdec tid; tf_bdo = n_of_bigdec bdo;
+                                tf_sdi = n_of_bigdec sdi; tf_ddur = n_of_bigdec dd; tf_dsize = n_of_bigdec ds;
+                                tf_dflags = n_of_bigdec df };
+         tf_dt = { C05FragModel.td_version = N0; td_base = n_of_bigdec tfdt };
+         tf_truns = (if truns = "-" then [] else L.map parse_trun (split_on '+' truns)); tf_extra = N0 }
+     | _ -> failwith "bad traf head")
+  | _ -> failwith ("bad traf " ^ x)
+
+let parse_dfrag (x : string) : C05FragModel.dfrag =
+  match split_on ';' x with
+  | [ms; pa; data; trafs] ->
+    { C05FragModel.df_trafs = (if trafs = "" then [] else L.map parse_traf (split_on '&' trafs));
+      df_data = (if data = "-" then [] else bytes_of_hex data);
+      df_moof_start = n_of_bigdec ms; df_payload_abs = n_of_bigdec pa }
+  | _ -> failwith ("bad fragment " ^ x)
+
+let parse_dfile (x : string) : C05FragModel.dfrag list list =
+  if x = "-" then [] else
+    L.map (fun seg -> if seg = "-" then [] else L.map parse_dfrag (split_on '^' seg)) (split_on '!' x)
+
+let fulls_string (l : C05Model.fullsample list) : string =
+  match l with [] -> "-" | _ -> S.concat "," (L.map wsample l)
+
+let distinct_ids (ids : coq_N list) : coq_N list =
+  let seen = Hashtbl.create 7 in
+  L.filter (fun t -> let k = int_of_n t in if Hashtbl.mem seen k then false else (Hashtbl.add seen k (); true)) ids
+
+let comb_case (ids : string) (pos0 : string) (files : string) (trexes : string) (refs : string) (obs : string) : string option =
+  let ids = if ids = "-" then [] else L.map n_of_bigdec (split_on ',' ids) in
+  let files = L.map parse_dfile (split_on '#' files) in
+  let txs = L.map (fun t -> match split_on ',' t with
+      | [a; b; c; d] -> { C05Model.tx_track = n_of_bigdec a; tx_ddur = n_of_bigdec b; tx_dsize = n_of_bigdec c; tx_dflags = n_of_bigdec d }
+      | _ -> failwith "bad trex") (split_on '#' trexes) in
+  let refs = split_on '#' refs in
+  let pos0 = n_of_bigdec pos0 in
+  (* the reference reading of every input *)
+  let mrefs = L.map2 (fun f tx ->
+      match C11CombModel.single_frag f with
+      | Ok _ -> (match C11CombModel.read_input tx f with Ok l -> "ok:" ^ fulls_string l | r -> class_of r)
+      | _ -> "-") files txs in
+  if mrefs <> refs then Some ("input-reading model=" ^ S.concat "#" mrefs) else
+  let res = C11CombModel.combine_media ids files in
+  let m = match res with
+    | Ok fe ->
+      "ok|" ^ S.concat ";" (L.map (fun t ->
+          dec_of_n t ^ "=" ^ (match C11CombModel.read_output t N0 N0 N0 pos0 fe with
+              | Ok l -> fulls_string l | _ -> "err")) (distinct_ids ids))
+    | r -> class_of r in
+  if m <> obs then Some ("combine model=" ^ (if S.length m > 500 then S.sub m 0 500 else m)) else
+  (* the instance of C11_combine_end_to_end: hypotheses true => every track reads back the reference *)
+  let hyps = L.length ids = L.length files && L.length (distinct_ids ids) = L.length ids && files <> [] &&
+             L.for_all2 (fun f tx -> match C11CombModel.single_frag f with
+                 | Ok d -> C11CombModel.no_trex_reliance d && C11CombModel.din_wf d &&
+                           int_of_n tx.C05Model.tx_track = int_of_n (C11CombModel.din_track d)
+                 | _ -> false) files txs &&
+             L.for_all (fun r -> S.length r >= 3 && S.sub r 0 3 = "ok:") refs in
+  if hyps then
+    let want = "ok|" ^ S.concat ";" (L.map2 (fun t r -> dec_of_n t ^ "=" ^ S.sub r 3 (S.length r - 3)) ids refs) in
+    if want <> obs then Some "theorem-instance hypotheses of C11_combine_end_to_end hold but a track differs from its input" else None
+  else None
+
+(* ---- init segments (I lines) ---- *)
+let kind_of_entry (b : coq_N list) : coq_N =
+  let cc = try S.init 4 (fun i -> Char.chr (int_of_n (L.nth b (4 + i)))) with _ -> "" in
+  n_of_int (match cc with
+      | "avc1" | "avc3" -> 1 | "hvc1" | "hev1" -> 2 | "mp4a" -> 3 | "ac-3" -> 4 | "ec-3" -> 5 | _ -> 0)
+
+let parse_init (x : string) : C11InitModel.init =
+  match split_on '|' x with
+  | [traks; trexs] ->
+    let tr = if traks = "-" then [] else L.map (fun t ->
+        match split_on '=' t with
+        | [hd; es] ->
+          (match split_on ',' hd with
+           | [id; h; ts] ->
+             { C11InitModel.it_id = n_of_bigdec id; it_hdlr = n_of_bigdec h; it_timescale = n_of_bigdec ts;
+               it_entries = (if es = "-" then [] else
+                               L.map (fun e -> let b = bytes_of_hex e in { C11InitModel.se_kind = kind_of_entry b; se_bytes = b })
+                                 (split_on '/' es)) }
+           | _ -> failwith "bad trak head")
+        | _ -> failwith ("bad trak " ^ t)) (split_on '&' traks) in
+    let mv = if trexs = "x" then None else if trexs = "-" then Some [] else
+        Some (L.map (fun t -> match split_on ',' t with
+            | [a; b; c; d; e] -> { C11InitModel.ix_id = n_of_bigdec a; ix_sdi = n_of_bigdec b; ix_ddur = n_of_bigdec c;
+                                   ix_dsize = n_of_bigdec d; ix_dflags = n_of_bigdec e }
+            | _ -> failwith "bad trex") (split_on '&' trexs)) in
+    { C11InitModel.in_traks = tr; in_mvex = mv }
+  | _ -> failwith ("bad init " ^ x)
+
+let init_string (i : C11InitModel.init) : string =
+  let open C11InitModel in
+  let tr = match i.in_traks with
+    | [] -> "-"
+    | l -> S.concat "&" (L.map (fun t ->
+        Printf.sprintf "%s,%s,%s=%s" (dec_of_n t.it_id) (dec_of_n t.it_hdlr) (dec_of_n t.it_timescale)
+          (match t.it_entries with [] -> "-" | es -> S.concat "/" (L.map (fun e -> hex_of_bytes e.se_bytes) es))) l) in
+  let tx = match i.in_mvex with
+    | None -> "x" | Some [] -> "-"
+    | Some l -> S.concat "&" (L.map (fun x -> Printf.sprintf "%s,%s,%s,%s,%s" (dec_of_n x.ix_id) (dec_of_n x.ix_sdi)
+                                         (dec_of_n x.ix_ddur) (dec_of_n x.ix_dsize) (dec_of_n x.ix_dflags)) l) in
+  tr ^ "|" ^ tx
+
+let init_case (kind : string) (ids : string) (inputs : string) : string =
+  let ids = if ids = "-" then [] else L.map n_of_bigdec (split_on ',' ids) in
+  match kind with
+  | "comb" ->
+    (match C11InitModel.comb_init ids (L.map parse_init (split_on '#' inputs)) with
+     | Ok i -> "ok|" ^ init_string i | r -> class_of r)
+  | "seg" ->
+    (match C11InitModel.seg_inits (parse_init inputs).C11InitModel.in_traks with
+     | Ok l -> "ok|" ^ S.concat "#" (L.map init_string l) | r -> class_of r)
+  | "segmux" ->
+    (match C11InitModel.seg_mux_init (parse_init inputs).C11InitModel.in_traks with
+     | Ok i -> "ok|" ^ init_string i | r -> class_of r)
+  | "reseg" ->
+    (match C11InitModel.reseg_init (if inputs = "none" then None else Some (parse_init inputs)) with
+     | None -> "ok|none" | Some i -> "ok|" ^ init_string i)
+  | _ -> "bad-kind"
+
 let opt_n (s : string) : coq_N option = if s = "x" then None else Some (n_of_dec s)
 
 let () =
@@ -310,6 +451,14 @@ let () =
         let m = pieces_string (n_of_dec tid) (fragmentify (n_of_dec d) fr) in
         if m = obs then Printf.printf "OK %s\n" id
         else Printf.printf "MISMATCH %s fragmentify-decoded model=%s\n" id (if S.length m > 600 then S.sub m 0 600 else m)
+      | ["C"; id; ids; pos0; files; trexes; refs; obs] ->
+        (match comb_case ids pos0 files trexes refs obs with
+         | None -> Printf.printf "OK %s\n" id
+         | Some m -> Printf.printf "MISMATCH %s %s\n" id m)
+      | ["I"; id; kind; ids; inputs; obs] ->
+        let m = init_case kind ids inputs in
+        if m = obs then Printf.printf "OK %s\n" id
+        else Printf.printf "MISMATCH %s init(%s) model=%s\n" id kind (if S.length m > 700 then S.sub m 0 700 else m)
       | "G" :: id :: _ ->
         let f = Array.of_list (split_on '\t' line) in
         if Array.length f <> 19 then Printf.printf "BADLINE %s\n" line
